@@ -84,7 +84,7 @@ inductive InOp where
 
 def inStep (o : Oracle) (s : S) : InOp → Except String S
   | .send b => .ok { s with sock := s.sock ++ b }
-  | .read => (getUserData o s).map (·.1)
+  | .read => (getUserDataH o s).map (·.1)
   | .line b => addConsoleLine s b
 
 def inRun (o : Oracle) (s : S) : List InOp → Except String S
@@ -108,7 +108,7 @@ theorem input_never_overflows (o : Oracle) (p : Port) (ops : List InOp) :
     | send b =>
       exact ih _ ⟨h.textLen, h.se, h.eMax, h.dec⟩
     | read =>
-      obtain ⟨s', evs, h1, h2⟩ := getUserData_ok o h
+      obtain ⟨s', evs, h1, h2, _⟩ := getUserDataH_ok' o h
       have : inStep o s .read = .ok s' := by simp [inStep, h1, Except.map]
       simp only [inRun, this]; exact ih _ h2
     | line b =>
@@ -174,7 +174,7 @@ inductive AnyOp where
 /-- one event; the delivered line, if any, is returned -/
 def anyStep (o : Oracle) (s : S) : AnyOp → Except String (S × Option (List Byte))
   | .send b => .ok ({ s with sock := s.sock ++ b }, none)
-  | .read => (getUserData o s).map (fun r => (r.1, none))
+  | .read => (getUserDataH o s).map (fun r => (r.1, none))
   | .line b => (addConsoleLine s b).map (fun s' => (s', none))
   | .extract => getUserCommand s
 
@@ -204,7 +204,7 @@ theorem framing_never_crashes (o : Oracle) (p : Port) (ops : List AnyOp) :
     | send b =>
       exact ih _ acc ⟨h.textLen, h.se, h.eMax, h.dec⟩ hs ha
     | read =>
-      obtain ⟨s', evs, h1, h2, h3, _, _⟩ := getUserData_ok' o h
+      obtain ⟨s', evs, h1, h2, h3, _, _⟩ := getUserDataH_ok' o h
       have : anyStep o s .read = .ok (s', none) := by simp [anyStep, h1, Except.map]
       simp only [anyRun, this]; exact ih _ acc h2 (by rw [h3]; exact hs) ha
     | line b =>
@@ -264,7 +264,7 @@ theorem fRun_never_crashes (o : Oracle) (p : Port) (ops : List FOp) : ∃ f, fRu
       simp only [fRun, fStep]
       exact ih _ ⟨h.textLen, h.se, h.eMax, h.dec⟩ hs
     | read =>
-      obtain ⟨s', evs, h1, h2, h3, _, _⟩ := getUserData_ok' o h
+      obtain ⟨s', evs, h1, h2, h3, _, _⟩ := getUserDataH_ok' o h
       simp only [fRun, fStep, h1]
       exact ih _ h2 (by rw [h3]; exact hs)
     | extract =>
@@ -275,8 +275,10 @@ theorem fRun_never_crashes (o : Oracle) (p : Port) (ops : List FOp) : ∃ f, fRu
 /-- **segmentation_independent, end to end (telnet port, line mode).**
     Take any schedule `ops` of client sends (any bytes, any chunking), read events and command extractions on a fresh
     telnet connection, and let the run satisfy the explicit side condition (`clean`): at every read the pending,
-    not yet extracted text is below the discard threshold of get_user_data, and at every extraction it does not
-    fill the buffer.  Then, whatever the segmentation and the interleaving:
+    not yet extracted text is below the discard threshold of get_user_data OR contains a complete command (then the
+    read is held back, fix 57d7cb1) - i.e. `clean` fails only when an unfinished line longer than the threshold is
+    pending, which get_user_data discards; and at every extraction the pending text does not fill the buffer.
+    Then, whatever the segmentation and the interleaving:
     * the lines delivered so far, followed by the commands still complete in the pending text, are exactly
       `lines received` — the specification applied to the bytes received so far, which knows nothing of reads;
     * `received ++ socket = sent`;
